@@ -179,6 +179,16 @@ class Cmp:
             got = getattr(o, 'type_', '<no type_>')
             if got != want_tag:
                 self.d(path + '._', 'constructor', f'constructor {c[0]} reported as {got!r} (expected {want_tag!r})')
+        if name == 'ShardAccount' and hasattr(o, 'cell') and '[' in path:      # as a dictionary leaf (stand-alone, the harness' sentinel follows the value in the same cell)
+            # the parser also keeps the account_descr as a cell: it is exactly the value (account reference, last_trans_hash, last_trans_lt), whatever was read from
+            # the same dictionary leaf before it (the leaf's DepthBalanceInfo may hold a reference of its own)
+            self.fields += 1
+            w_ = T.W()
+            S.enc(w_, S.t('ShardAccount'), v)
+            want = w_.cell()
+            got = getattr(o, 'cell', None)
+            if not (hasattr(got, 'hash') and got.hash == want.hash and len(got.refs) == 1):
+                self.d(path + '.cell', 'value', f'kept account_descr cell differs from the encoded value: {mon.srepr(got, 60)} with {len(getattr(got, "refs", []))} references')
         self.ctx.append(name)
         try:
             for f, ft in self.flat_fields(c[2]):
